@@ -274,6 +274,18 @@ def gen_zone(rng):
     if rng.random() < 0.15:
         leaps = [(78796800 + i * 31536000, i + 1) for i in
                  range(rng.randrange(1, 4))]
+    if len(types) > 1 and rng.random() < 0.3:
+        # the order of the type table is the writer's business: e.g. a
+        # daylight type may come first, with the first STANDARD type (the one
+        # in force before the first transition) somewhere behind it
+        perm = list(range(len(types)))
+        rng.shuffle(perm)
+        types = [types[p] for p in perm]
+        idx = [perm.index(i) for i in idx]
+        if isstd:
+            isstd = [isstd[p] for p in perm]
+            isgmt = [isgmt[p] for p in perm]
+        mode += "+perm"
     return dict(kind="synthetic", mode=mode, trans=trans, idx=idx,
                 types=[list(x) for x in types], isstd=isstd, isgmt=isgmt,
                 leaps=[list(x) for x in leaps],
@@ -285,7 +297,8 @@ LOADS = ["gettz_name", "gettz_second", "gettz_space", "gettz_colon",
          "tzfile_stream_chunked", "archive", "archive_link", "archive_hardlink",
          "bundle", "gettz_bundle", "sibling", "sibling", "gettz_env",
          "gettz_env_colon", "gettz_localtime_abs", "gettz_localtime_rel",
-         "gettz_localtime_colon"]
+         "gettz_localtime_colon", "tzfile_stream_forward_only",
+         "tzfile_stream_read_only"]
 
 
 def gen_loads(rng, n):
@@ -623,6 +636,19 @@ class Loader(object):
             return tz.tzfile(SimFile(self.data, with_name=False,
                                      fault=self.stream_fault,
                                      on_fault=self.ctx.fault), filename="x")
+        if k in ("tzfile_stream_forward_only", "tzfile_stream_read_only"):
+            # a stream that can only be read forward (pipe, socket, HTTP
+            # body): enough for any data without leap-second records, which
+            # is the only place where the reader wants to seek
+            if tzif.Ref(self.data).leaps:
+                self.ctx.probe("forward_only_skipped_leap_records")
+                return "skip"
+            self.ctx.probe("load.forward_only_stream")
+            if k.endswith("read_only"):
+                return tz.tzfile(_ReadOnly(self.data))
+            return tz.tzfile(SimFile(self.data, with_name=False,
+                                     fault=dict(kind="unseekable"),
+                                     on_fault=self.ctx.fault), filename="fwd")
         if k == "tzfile_stream_chunked":
             # a buffered reader over a raw stream that delivers short reads:
             # legal, and BufferedReader re-assembles exact reads
@@ -646,6 +672,16 @@ class Loader(object):
         if k == "gettz_bundle":
             return tz.gettz("Bundle/Zone")
         raise ValueError(op)
+
+
+class _ReadOnly(object):
+    """Duck-typed binary stream: read(n) and nothing else."""
+
+    def __init__(self, data):
+        self._b = io.BytesIO(data)
+
+    def read(self, n=-1):
+        return self._b.read(n)
 
 
 class _Raw(io.RawIOBase):
@@ -801,8 +837,8 @@ def execute(cls, scenario, ctx):
                 _handles(ctx, world, op)
                 continue
             _handles(ctx, world, op)
-            if isinstance(z, str) and z == "sibling":
-                ctx.event("load", op, "sibling")
+            if isinstance(z, str) and z in ("sibling", "skip"):
+                ctx.event("load", op, z)
                 loaded.append((op, None))
                 continue
             if z is None:
